@@ -368,6 +368,7 @@ func (r *Report) writeEvidence(dir, prop string, mine []*OblSummary, nobl, disch
 			"paths":                   r.NPaths,
 			"solver_seconds":          sv,
 			"per_query_timeout_ms":    r.TimeoutMs,
+			"cross_checked":           map[string]interface{}{"enabled": r.Tier == "thorough", "obligations_confirmed_by_a_second_solver": r.Stats.Confirmed, "disagreements": r.Stats.Disagree},
 			"samples":                 samples,
 			"load_s":                  r.LoadSec,
 			"vcgen_s":                 r.GenSec,
